@@ -106,12 +106,30 @@ def aggr_arg(name, tau):
     return ("huber", tau) if name == "huber" else name
 
 
+_history_count = 0
+
+
 def run_impl(spec, run):
     amp, interp, aggr = KNAME[run["kernel"]]
     frame, fl = build(spec, amp == "amp", run["use_w"])
     kw = dict(fillvalue=run["fill"], interpolation=interp_arg(interp, run.get("a", 0)),
               aggregation=aggr_arg(aggr, run.get("tau", 0.0)))
     P = spec["ltx"].shape[0]
+    global _history_count
+    _history_count += 1
+    if _history_count % 3 == 0:
+        # HISTORY: the same Frame and FocalLaw objects were used before, when the frame held other samples (the caller
+        # gates / filters frame.timetraces in place between two images); the image must be that of the samples it holds now
+        tt = frame.timetraces
+        if tt.flags.writeable:
+            keep_ = tt.copy()
+            tt[...] = (keep_ * 0 + 3) if _history_count % 2 else keep_[::-1]
+            try:
+                das.delay_and_sum(frame, fl, **kw)
+            except Exception:       # noqa: BLE001  (robust solvers may fail on the scrambled samples; irrelevant here)
+                pass
+            tt[...] = keep_
+            chk.count(frame_and_focal_law_used_before="samples changed in place since")
     if run.get("prealloc"):
         res0 = np.full((P,), 12345.0, dtype=run["prealloc"])
         out = das.delay_and_sum(frame, fl, result=res0, **kw)
